@@ -641,16 +641,16 @@ PROPS["C17"] = {
     "legs": [
         leg("sweep+seq5q", "c17_seq", (0, 0), {"depth": 5}, flags=(), what="size/alignment sweep + all 12^5 operation sequences on fresh pools", tiers=("quick",)),
         leg("sweep+seq6", "c17_seq", (0, 0), {"depth": 6}, flags=(), what="size/alignment sweep + all 12^6 operation sequences on fresh pools", tiers=("thorough",), weight=4.0),
-        leg("mt-foreign", "c17_mt", (4, 6), {"kind": "foreign", "size": 48}, what="foreign free vs owner malloc, 48-byte class"),
-        leg("mt-foreign8", "c17_mt", (4, 6), {"kind": "foreign", "size": 8}, what="8-byte class"),
-        leg("mt-foreign-fit", "c17_mt", (4, 5), {"kind": "foreign", "size": 3000}, what="fitting-size class"),
-        leg("mt-foreign-aligned", "c17_mt", (3, 4), {"kind": "foreign", "size": 1500, "align": 256, "after": 1792, "nown": 4}, what="blocks from scalable_aligned_malloc(1500, 256) (user address inside a 1792-byte slot) freed by another thread while the owner allocates full-slot objects"),
-        leg("mt-foreign-aligned2", "c17_mt", (3, 4), {"kind": "foreign", "size": 3000, "align": 1024, "after": 4032, "nown": 3}, what="same for the 4032-byte fitting bin, alignment 1024"),
-        leg("mt-foreign-aligned3", "c17_mt", (3, 4), {"kind": "foreign", "size": 2000, "align": 128, "after": 2688, "nown": 4}, what="same for the 2688-byte bin, alignment 128"),
+        leg("mt-foreign", "c17_mt", (6, 8), {"kind": "foreign", "size": 48}, what="foreign free vs owner malloc, 48-byte class"),
+        leg("mt-foreign8", "c17_mt", (6, 8), {"kind": "foreign", "size": 8}, what="8-byte class"),
+        leg("mt-foreign-fit", "c17_mt", (5, 7), {"kind": "foreign", "size": 3000}, what="fitting-size class"),
+        leg("mt-foreign-aligned", "c17_mt", (4, 6), {"kind": "foreign", "size": 1500, "align": 256, "after": 1792, "nown": 4}, what="blocks from scalable_aligned_malloc(1500, 256) (user address inside a 1792-byte slot) freed by another thread while the owner allocates full-slot objects"),
+        leg("mt-foreign-aligned2", "c17_mt", (4, 6), {"kind": "foreign", "size": 3000, "align": 1024, "after": 4032, "nown": 3}, what="same for the 4032-byte fitting bin, alignment 1024"),
+        leg("mt-foreign-aligned3", "c17_mt", (4, 6), {"kind": "foreign", "size": 2000, "align": 128, "after": 2688, "nown": 4}, what="same for the 2688-byte bin, alignment 128"),
         leg("mt-clean", "c17_mt", (3, 4), {"kind": "clean", "size": 64, "nown": 3}, what="the owner runs scalable_allocation_command(TBBMALLOC_CLEAN_THREAD_BUFFERS), mallocs, runs TBBMALLOC_CLEAN_ALL_BUFFERS, mallocs, while another thread frees three of its blocks (mailbox / public free list vs the clean-up) and mallocs"),
         leg("mt-clean-2slabs", "c17_mt", (2, 3), {"kind": "clean", "size": 8000, "nown": 3}, what="same with one object per slab (three slabs in the mailbox)"),
         leg("mt-exit", "c17_mt", (3, 4), {"kind": "exit", "size": 48}, what="owner thread shuts down with live blocks; another thread frees them and allocates (orphan adoption)"),
-        leg("mt-last", "c17_mt", (4, 5), {"kind": "last", "size": 8000}, what="foreign free of the only object of a slab vs owner malloc"),
+        leg("mt-last", "c17_mt", (5, 7), {"kind": "last", "size": 8000}, what="foreign free of the only object of a slab vs owner malloc"),
         leg("mt-large", "c17_mt", (3, 4), {"kind": "large", "size": 100000}, what="large objects: foreign free + malloc through the large-object cache"),
     ],
 }
